@@ -1740,11 +1740,17 @@ def check_dhtmlx(ctx, O):
                 o.undecided(f, L1, L1, "inner loop is not `for <name> in ..`")
                 return None
             it1 = strip_seq(for_iter(ctx, f, L1))
-            full = match(f"{r}.all_children + [{r}]", it1) or match(f"[{r}] + {r}.all_children", it1) or \
+            full = match(f"{r}.all_children + [{r}]", it1) or \
                 match(f"[{r}, *{r}.all_children]", it1) or match(f"[*{r}.all_children, {r}]", it1) or \
                 match(f"list({r}.all_children) + [{r}]", it1) or match(f"[{r}] + list({r}.all_children)", it1)
             if full:
                 return L1, C[2:], [L0, L1]
+            if match(f"[{r}] + {r}.all_children", it1):
+                if any('__radd__' in c.methods for c in prog.mro('_ImmutableTaskList')):
+                    return L1, C[2:], [L0, L1]
+                o.refute(f, L1, L1.iter, f"`[{r}] + {r}.all_children` raises TypeError: the task list type defines __add__ but no "
+                                         f"__radd__, so a plain list cannot be the left operand (nothing is rendered)")
+                return None
             if match(f"{r}.all_children", it1):
                 o.refute(f, L1, L1.iter, f"`{hdr(L1)}` omits the root `{r}` itself: root tasks get no entry (expected all_children + [root])")
             elif match(f"{r}.children + [{r}]", it1) or match(f"[{r}] + {r}.children", it1) or match(f"{r}.children", it1):
